@@ -25,7 +25,7 @@
 From Coq Require Import List ZArith QArith Bool Arith Lia Reals Lra.
 From Flocq Require Import Core BinarySingleNaN.
 From LMBase Require Import Res ListX IEEE.
-From LMDisc Require Import DiscModel DiscImplCheck DiscProofs DiscKernels DiscU8Kernel GenDiscU8 DiscU8Proofs DiscIEEE DiscImplProofs DiscF32Mono DiscF32Main DiscF32Sum DiscF32Cond DiscF32Zero DiscF32End DiscF32Sign.
+From LMDisc Require Import DiscModel DiscImplCheck DiscProofs DiscKernels DiscU8Kernel GenDiscU8 DiscU8Proofs DiscHistory DiscHistoryProofs DiscIEEE DiscImplProofs DiscF32Mono DiscF32Main DiscF32Sum DiscF32Cond DiscF32Zero DiscF32End DiscF32Sign.
 Import ListNotations.
 
 (* (1) exact arithmetic: byte score of a window >= byte image of its real score *)
@@ -255,6 +255,59 @@ Theorem C08_backends_overestimate :
       real_score xq_ops m (striped K 32 (configure_wrap_of (length m)) s) i = Ok real /\
       (scale xq_ops d real <= b)%Z.
 Proof. exact backends_overestimate. Qed.
+
+(* (2h) HISTORIES on one reused `StripedScores<u8, C>` buffer (DiscHistory.v: the callee resizes the caller's buffer --
+   surviving rows keep their bytes -- and writes into it: cell by cell in the generic kernel, one 32-byte store per
+   row in the AVX2 kernel; wrapper steps in the source order of GenDiscU8.v).  After ANY history of scoring calls
+   (any motifs, sequences, row ranges, pipelines / dispatcher arms of an x86 host), `resize` and `matrix_mut().fill`
+   by the caller, a scoring call leaves in the buffer exactly its FRESH result (run_u8_kernel, which the theorems
+   above are about): the result depends on the last call only.  [buf_wf]: every row of the buffer has C cells
+   (invariant of DenseMatrix<u8, C>; true of StripedScores::empty()). *)
+Theorem C08_scores_history :
+  forall (C : nat) (ops : list hop) (c : hcall) (lo hi : nat) (buf0 buf : sscores Z),
+    buf_wf C buf0 -> Forall (op_ok C) ops -> call_ok C c ->
+    hrun gen_avx2_u8 gen_neon_u8 C ops buf0 = Ok buf ->
+    hstep gen_avx2_u8 gen_neon_u8 C (HRowsInto c lo hi) buf = fresh_call gen_avx2_u8 gen_neon_u8 C c lo hi /\
+    hstep gen_avx2_u8 gen_neon_u8 C (HScoreInto c) buf
+      = fresh_call gen_avx2_u8 gen_neon_u8 C c 0 (length (ss_rows (hc_seq c)) - ss_wrap (hc_seq c)).
+Proof. exact scores_history. Qed.
+
+(* the generic kernel alone, any number of columns, any old buffer with C-cell rows *)
+Theorem C08_generic_rows_into_fresh :
+  forall (C : nat) (dm : list (list Z)) (s : sseq) (lo hi : nat) (old : sscores Z),
+    buf_wf C old ->
+    generic_rows_into C dm s lo hi old = score_rows_generic sat_add 0%Z C dm s lo hi.
+Proof. exact generic_rows_into_fresh. Qed.
+
+(* the main clause of C08 for the buffer after any history whose last call scores the discretised matrix on the
+   striped, configured sequence through any arm of the dispatcher (exact real score, as C08_backends_overestimate) *)
+Theorem C08_history_overestimates :
+  forall (K : nat) (m : list (list xq)) (d : @dmat xq) (pads : nat -> list Z) (s : list nat) (a : arm) (i : nat)
+         (ops : list hop) (buf0 buf : sscores Z),
+    (0 < K)%nat -> (K <= 16)%nat ->
+    Forall (fun row => length row = K) m ->
+    Forall (fun row => Forall xq_finite (nonwild K row)) m ->
+    to_discrete xq_ops K m = Ok d ->
+    (forall i, 16 <= K + length (pads i))%nat ->
+    Forall (fun v => (v < K)%nat) s ->
+    (1 <= length m)%nat -> (i + length m <= length s)%nat ->
+    buf_wf 32 buf0 -> Forall (op_ok 32) ops -> hrun gen_avx2_u8 gen_neon_u8 32 ops buf0 = Ok buf ->
+    let st := striped K 32 (configure_wrap_of (length m)) s in
+    exists sc b real,
+      hstep gen_avx2_u8 gen_neon_u8 32 (HScoreInto (mkHCall (gen_dispatch_u8_x86 (arm4_of a)) (d_data d) pads st)) buf = Ok sc /\
+      sc_index sc i = Ok b /\
+      real_score xq_ops m st i = Ok real /\
+      (scale xq_ops d real <= b)%Z.
+Proof. exact history_overestimates. Qed.
+
+(* the resize in the wrapper is necessary: the same kernel behind a wrapper without it keeps the stale second row
+   (255 everywhere) and the stale max_index of the history [resize(2, 7); fill(255); score_into(one-row result)] *)
+Theorem C08_history_needs_resize :
+  hrun gen_avx2_u8 gen_neon_u8 32 ex_h_ops buf_empty
+    = Ok {| sc_rows := [repeat 2%Z 20 ++ repeat 0%Z 12]; sc_max := 20%nat |} /\
+  hrun avx2_noresize gen_neon_u8 32 ex_h_ops buf_empty
+    = Ok {| sc_rows := [repeat 2%Z 20 ++ repeat 0%Z 12; repeat 255%Z 32]; sc_max := 7%nat |}.
+Proof. exact history_example. Qed.
 
 (* (3) binary32: the statement is false for ill-conditioned matrices *)
 Theorem C08_ieee_refuted :
